@@ -35,6 +35,9 @@ type D struct {
 	// Subst renders the listed parameters as the given descriptors (used when a
 	// rule looks into a helper on behalf of its single caller).
 	Subst map[*ssa.Parameter]string
+	// CallVal gives the results (descriptors in the caller's terms) of a call
+	// to a helper that was walked through on the current path.
+	CallVal func(*ssa.Call) []string
 }
 
 func (p *Prog) D() *D { return &D{P: p} }
@@ -111,8 +114,21 @@ func (d *D) Of(v ssa.Value) string {
 	case *ssa.BinOp:
 		return d.binop(x)
 	case *ssa.Extract:
+		if c, ok := x.Tuple.(*ssa.Call); ok && d.CallVal != nil {
+			if vals := d.CallVal(c); vals != nil && x.Index < len(vals) {
+				return vals[x.Index]
+			}
+		}
 		return d.Of(x.Tuple) + "#" + fmt.Sprint(x.Index)
 	case *ssa.Call:
+		if d.CallVal != nil {
+			if vals := d.CallVal(x); len(vals) == 1 {
+				return vals[0]
+			}
+		}
+		if s, ok := d.inlinePure(x); ok {
+			return s
+		}
 		if d.CallIdentity {
 			return d.call(x.Common()) + "@" + x.Name()
 		}
@@ -721,7 +737,48 @@ func (d *D) nestedFields(base ssa.Value) string {
 //go:embed refparams.json
 var refParamsJSON []byte
 
-var refParams map[string][]string
+type refEntry struct {
+	Params  []string `json:"params"`
+	Callees []string `json:"callees"`
+}
+
+var refProg map[string]refEntry
+
+func loadRef() {
+	if refProg == nil {
+		refProg = map[string]refEntry{}
+		_ = json.Unmarshal(refParamsJSON, &refProg)
+	}
+}
+
+// IsNewFunc reports whether fn did not exist on the reference tree (the tree
+// the rules were written against): a helper introduced by a later edit.
+func IsNewFunc(fn *ssa.Function) bool {
+	loadRef()
+	if len(refProg) == 0 {
+		return false
+	}
+	_, ok := refProg[fn.String()]
+	return !ok
+}
+
+// RefCallees returns the module callees fn had on the reference tree.
+func RefCallees(fnFull string) ([]string, bool) {
+	loadRef()
+	e, ok := refProg[fnFull]
+	return e.Callees, ok
+}
+
+// RefFuncs lists the functions of the reference tree.
+func RefFuncs() []string {
+	loadRef()
+	var out []string
+	for k := range refProg {
+		out = append(out, k)
+	}
+	sort.Strings(out)
+	return out
+}
 
 // paramName returns the reference name of a parameter: the name it had, at
 // that position, when the rules were written (frozen table refparams.json,
@@ -729,12 +786,10 @@ var refParams map[string][]string
 // names, so renaming a parameter or receiver in the repository does not change
 // any descriptor. Functions not in the table use their current names.
 func paramName(p *ssa.Parameter) string {
-	if refParams == nil {
-		refParams = map[string][]string{}
-		_ = json.Unmarshal(refParamsJSON, &refParams)
-	}
+	loadRef()
 	fn := p.Parent()
-	if names, ok := refParams[fn.String()]; ok {
+	if e, ok := refProg[fn.String()]; ok {
+		names := e.Params
 		for i, q := range fn.Params {
 			if q == p && i < len(names) && len(names) == len(fn.Params) {
 				return names[i]
@@ -746,3 +801,63 @@ func paramName(p *ssa.Parameter) string {
 
 // ParamName is the reference name of a parameter (see paramName).
 func ParamName(p *ssa.Parameter) string { return paramName(p) }
+
+// inlinePure renders a call to a helper that did not exist on the reference
+// tree and consists of a single straight-line block without side effects
+// (a predicate such as isInitiator(chid)) as the expression it returns, in
+// the caller's terms.
+func (d *D) inlinePure(c *ssa.Call) (string, bool) {
+	h := c.Common().StaticCallee()
+	if h == nil || len(h.Blocks) != 1 || h.Parent() != nil || !d.P.InProd(h) || !IsNewFunc(h) || d.depth > maxDescDepth-2 {
+		return "", false
+	}
+	var ret *ssa.Return
+	for _, ins := range h.Blocks[0].Instrs {
+		switch x := ins.(type) {
+		case *ssa.Return:
+			ret = x
+		case *ssa.Store, *ssa.MapUpdate, *ssa.Send, *ssa.Go, *ssa.Defer, *ssa.Panic:
+			return "", false
+		case *ssa.Call:
+			// only calls that themselves read (accessors / nested new predicates) are fine;
+			// be conservative: static callees must be new pure helpers or interface/accessor invokes
+			if !x.Common().IsInvoke() {
+				if sc := x.Common().StaticCallee(); sc == nil || len(sc.Blocks) > 3 {
+					return "", false
+				}
+			}
+		}
+	}
+	if ret == nil || len(ret.Results) != 1 {
+		return "", false
+	}
+	sub := &D{P: d.P, CallIdentity: d.CallIdentity, depth: d.depth + 1, Subst: map[*ssa.Parameter]string{}}
+	for i, q := range h.Params {
+		if i < len(c.Common().Args) {
+			sub.Subst[q] = d.Of(c.Common().Args[i])
+		}
+	}
+	return sub.Of(ret.Results[0]), true
+}
+
+// inlinePureCond is inlinePure for branch conditions: it returns the callee's
+// returned value and a descriptor context in which to normalise it.
+func (d *D) inlinePureCond(c *ssa.Call) (ssa.Value, *D, bool) {
+	if _, ok := d.inlinePure(c); !ok {
+		return nil, nil, false
+	}
+	h := c.Common().StaticCallee()
+	var ret *ssa.Return
+	for _, ins := range h.Blocks[0].Instrs {
+		if r, ok := ins.(*ssa.Return); ok {
+			ret = r
+		}
+	}
+	sub := &D{P: d.P, CallIdentity: d.CallIdentity, depth: d.depth + 1, Subst: map[*ssa.Parameter]string{}}
+	for i, q := range h.Params {
+		if i < len(c.Common().Args) {
+			sub.Subst[q] = d.Of(c.Common().Args[i])
+		}
+	}
+	return ret.Results[0], sub, true
+}
